@@ -8,7 +8,7 @@ MODULE = r'''
 #[cfg(test)]
 mod verif_replay_d {
     use super::*;
-    const URIS: [&str; 9] = ["http://example.org/pr\u{fc}fung", "http://example.org/v1/types", "http://example.org/v2/types", "urn:a:typ", "http://x.org/a-types", "http://x.org/ty.pes", "http://example.org/other", "http://example.org/billing/", "http://example.org/billing"];
+    const URIS: [&str; 13] = ["http://example.org/pr\u{fc}fung", "http://example.org/api/v1", "http://example.org/api/v", "http://example.org/api/_v1", "http://example.org/a/v", "http://example.org/v1/types", "http://example.org/v2/types", "urn:a:typ", "http://x.org/a-types", "http://x.org/ty.pes", "http://example.org/other", "http://example.org/billing/", "http://example.org/billing"];
     const PFX: [&str; 2] = ["a", "b"];
     #[derive(Clone, Copy, Debug)]
     enum Op { Add(usize, usize), Switch(usize) }
@@ -27,6 +27,9 @@ mod verif_replay_d {
             if (a.namespace == b.namespace) != (a.abbreviation == b.abbreviation) {
                 bad.push(format!("URI/prefix not a bijection: {}={} vs {}={}", a.namespace, a.abbreviation, b.namespace, b.abbreviation));
             }
+        } }
+        for a in &d.namespaces { for b in &d.namespaces {
+            if (a.namespace == b.namespace) != (a.rust_mod_name == b.rust_mod_name) { bad.push(format!("URI/module not a bijection: {}={} vs {}={}", a.namespace, a.rust_mod_name, b.namespace, b.rust_mod_name)); }
         } }
         for a in &d.namespaces { if a.rust_mod_name != format!("mod_{}", a.abbreviation) { bad.push(format!("module name {} for prefix {}", a.rust_mod_name, a.abbreviation)); } }
         for t in &d.target_namespaces { if !d.namespaces.iter().any(|n| **n == **t) { bad.push(format!("target namespace {} not in table", t.namespace)); } }
@@ -53,8 +56,9 @@ mod verif_replay_d {
                 for (k, u) in before { if d.namespace_lookup.get(&k).map(|v| v.namespace.clone()) != Some(u.clone()) { println!("D|seq|{:?}|binding {k} changed", &seq[..=i]); } }
             }
         } } }
-        // merges of two 2-step documents
-        for &a1 in &all { for &a2 in &all { for &b1 in &all { for &b2 in &all {
+        // merges of two 2-step documents (operations on the last 8 URIs of the pool only: the count grows with the 4th power)
+        let some: Vec<Op> = all.iter().copied().filter(|o| match o { Op::Add(_, u) | Op::Switch(u) => *u >= URIS.len() - 8 }).collect();
+        for &a1 in &some { for &a2 in &some { for &b1 in &some { for &b2 in &some {
             let mut d = RustDocument::empty(); apply(&mut d, a1); apply(&mut d, a2);
             let mut e = RustDocument::empty(); apply(&mut e, b1); apply(&mut e, b2);
             if !check(&d, None).is_empty() || !check(&e, None).is_empty() { continue; }
